@@ -19,7 +19,6 @@ Import ListNotations.
 Local Open Scope R_scope.
 
 Theorem storage_trap_all_kernel_split_R (p s0 : list R) ins n :
-  (forall a r, ins = a :: r -> (0 < n < length a)%nat) ->
   split_at (storage_trap_all_kernel (A := RArith) p) s0 ins n.
 Proof.
   apply storage_trap_all_kernel_split_partial. intros x. cbn [add zero RArith]. ring.
